@@ -22,6 +22,12 @@ def main():
     rc, out = sh("git -C /repo status --porcelain")
     assert out.strip() == "", "repo not clean: " + out
     res = {"dir": d, "property": meta["property"]}
+    # the evidence files must describe runs on the unchanged tree: keep them aside during the run
+    saved = {}
+    for c in checks:
+        ev = os.path.join(ROOT, "evidence", c + ".json")
+        if os.path.exists(ev):
+            saved[ev] = open(ev, "rb").read()
     try:
         rc, out = sh(f"git -C /repo apply {d}/patch.diff")
         assert rc == 0, out
@@ -42,6 +48,8 @@ def main():
                     res["check_" + c]["replay"] = str(e)
     finally:
         sh("git -C /repo checkout -- . && git -C /repo clean -fdq schwifty")
+        for ev, data in saved.items():
+            open(ev, "wb").write(data)
     rc, out = sh(f"cd /tmp && PYTHONPATH=/repo /venv/bin/python {d}/demo.py")
     res["demo_reverted"] = rc
     print(json.dumps(res, indent=1, ensure_ascii=False))
